@@ -187,6 +187,8 @@ def harness(flavour="base", shared=False, extra_defs=(), tag=""):
                   "-D_GNU_SOURCE", "-DREF_HAVE_OPENSSL", "-DREF_HAVE_OPENSSL_SM",
                   "-I" + libdir, "-I" + hd, "-I" + os.path.join(hd, "ref"), "-pthread"]
         cflags += ["-D" + d for d in extra_defs]
+        if flavour != "nohook":
+            cflags.append("-D" + GUARD)
         ld = []
         if flavour == "asan":
             cflags += ["-fsanitize=address,undefined", "-fno-sanitize=alignment", "-fno-omit-frame-pointer"]
